@@ -430,6 +430,10 @@ def alphabet(S, A, unit, sectors, lean=False):
     if not lean:
         ops.append(("tell",))
         ops.append(("disturb", 4096 + 123, 1000))
+        # an I/O error of the underlying handle on its 1st / 2nd / 3rd next read, hitting a large read from the start: the
+        # call may raise; after re-positioning, later operations are unaffected by what the failed call left behind
+        for k in (1, 2, 3):
+            ops.append(("io-fault", k, S + 5))
     if sectors and not lean:
         # a request that cannot be served (runs far past the end of the disk): whatever it does -- raise or return short --
         # later operations must not be affected by it
@@ -473,6 +477,20 @@ def _apply_impl(stream, reader, op):
         except Exception:
             pass
         return None
+    if k == "io-fault":
+        hs = [h for h in _handles(stream) if hasattr(h, "fail_after")]
+        for h in hs:
+            h.fail_after = op[1]
+        try:
+            stream.seek(0)
+            stream.read(op[2])
+        except Exception:
+            pass
+        finally:
+            for h in hs:
+                h.fail_after = 0
+        stream.seek(0)
+        return None
     if k == "disturb":
         # the owner of the underlying handle(s) uses them between two calls (e.g. hashes the evidence file)
         for fh in _handles(stream):
@@ -502,6 +520,9 @@ def _apply_impl(stream, reader, op):
 
 
 def _apply_model(m, op):
+    if op[0] == "io-fault":
+        m.apply(("seek", 0, 0))
+        return None
     if op[0] in ("disturb", "fail_sectors"):
         return None
     if op[0] == "read_sectors":
